@@ -167,9 +167,10 @@ func (g *c19G) pick(label string, n int) int {
 	g.n++
 	return rapid.IntRange(0, n-1).Draw(g.t, fmt.Sprintf("%s#%d", label, g.n))
 }
+
 // chance is true with probability num/den; the minimal draw (what shrinking
 // tends to) is false, so optional extras disappear while shrinking.
-func (g *c19G) chance(label string, num, den int) bool { return g.pick(label, den) >= den-num }
+func (g *c19G) chance(label string, num, den int) bool  { return g.pick(label, den) >= den-num }
 func (g *c19G) oneOf(label string, xs ...string) string { return xs[g.pick(label, len(xs))] }
 
 // c19FullyDecode percent-decodes s until nothing changes (invalid escapes are kept).
